@@ -149,9 +149,9 @@ Proof.
   lia.
 Qed.
 
-Lemma tokc_link_send c w s d m : tokc c (link_send w s d m) <= tokc c w + cnt c (syn_cid m).
+Lemma tokc_link_enqueue c w s d m : tokc c (link_enqueue w s d m) <= tokc c w + cnt c (syn_cid m).
 Proof.
-  unfold link_send. destruct (find _ _); [|rewrite tokc_syn_gone; lia].
+  unfold link_enqueue. destruct (find _ _); [|rewrite tokc_syn_gone; lia].
   destruct (cut_from _ _); [rewrite tokc_syn_gone; lia|].
   rewrite !tokc_eq. cbn [w_links w_hosts set_links].
   pose proof (sumn_upd_first_le (fun l => cnt c (link_toks l)) (fun l => on_link l s d)
@@ -162,6 +162,37 @@ Proof.
   { intros x. eapply Nat.le_trans; [apply flow_link_le|]. unfold link_toks. cbn [l_sent l_rdy_a l_rdy_b set_sent].
     rewrite syns_app, syns_one, syn_cid_set_parked, !cnt_app. lia. }
   specialize (H Hx). lia.
+Qed.
+
+Lemma fold_syn_gone_tok (l : list wmsg) : forall w c, tokc c (fold_left syn_gone l w) = tokc c w.
+Proof. induction l as [|m l IH]; intros w c; cbn; [reflexivity|]. rewrite IH. apply tokc_syn_gone. Qed.
+
+Lemma rand_link_le c w l : cnt c (link_toks (fst (rand_link w l))) <= cnt c (link_toks l).
+Proof.
+  unfold rand_link. destruct (l_coins l) as [|[rp rr] cs]; [cbn [fst]; lia|].
+  destruct ((healthy_ab l || healthy_ba l) && rp); [|destruct ((l_rand_ab l || l_rand_ba l) && rr)];
+    unfold link_toks; cbn [fst l_sent l_rdy_a l_rdy_b set_sent set_rands set_cuts set_coins]; rewrite ?cnt_app; try lia.
+  pose proof (cnt_syns_filter c (fun m => negb (breaks w l m)) (l_sent l)). lia.
+Qed.
+
+Lemma tokc_rand_send c w s d : tokc c (rand_send w s d) <= tokc c w.
+Proof.
+  unfold rand_send. destruct (find _ _) as [l0|] eqn:Hf; [|lia]. rewrite fold_syn_gone_tok.
+  rewrite !tokc_eq. cbn [w_links w_hosts set_links].
+  (* the link that is replaced is the first one on the pair, i.e. l0 itself *)
+  assert (G : forall ls, find (fun l => on_link l s d) ls = Some l0 ->
+            sumn (fun l => cnt c (link_toks l)) (upd_first (fun l => on_link l s d) (fun _ => fst (rand_link w l0)) ls)
+            <= sumn (fun l => cnt c (link_toks l)) ls).
+  { induction ls as [|y ls IH]; intros Hf'; cbn in *; [discriminate|].
+    destruct (on_link y s d); cbn.
+    - injection Hf' as ->. pose proof (rand_link_le c w l0). lia.
+    - specialize (IH Hf'). lia. }
+  specialize (G _ Hf). lia.
+Qed.
+
+Lemma tokc_link_send c w s d m : tokc c (link_send w s d m) <= tokc c w + cnt c (syn_cid m).
+Proof.
+  unfold link_send. eapply Nat.le_trans; [apply tokc_link_enqueue|]. pose proof (tokc_rand_send c w s d). lia.
 Qed.
 
 Lemma tokc_loop_send c w h m : tokc c (loop_send w h m) <= tokc c w + cnt c (syn_cid m).
@@ -311,33 +342,33 @@ Qed.
 
 Lemma hold_tok w a b : tok_inv w [] -> tok_inv (do_hold w a b) [].
 Proof.
-  apply on_pair_tok. intros c l. unfold link_toks. cbn [l_sent l_rdy_a l_rdy_b set_sent set_helds set_cuts].
+  apply on_pair_tok. intros c l. unfold link_toks. cbn [l_sent l_rdy_a l_rdy_b set_sent set_helds set_cuts set_rands].
   rewrite syns_map_parked. lia.
 Qed.
 
 Lemma release_tok w a b : tok_inv w [] -> tok_inv (do_release w a b) [].
 Proof.
-  apply on_pair_tok. intros c l. unfold link_toks. cbn [l_sent l_rdy_a l_rdy_b set_sent set_helds set_cuts].
+  apply on_pair_tok. intros c l. unfold link_toks. cbn [l_sent l_rdy_a l_rdy_b set_sent set_helds set_cuts set_rands].
   rewrite syns_map_parked. lia.
 Qed.
 
 Lemma repair_tok w a b : tok_inv w [] -> tok_inv (do_repair w a b) [].
-Proof. apply on_pair_tok. intros c l. unfold link_toks. cbn [l_sent l_rdy_a l_rdy_b set_helds set_cuts]. lia. Qed.
+Proof. apply on_pair_tok. intros c l. unfold link_toks. cbn [l_sent l_rdy_a l_rdy_b set_helds set_cuts set_rands]. lia. Qed.
 
 Lemma repair_one_tok w a b : tok_inv w [] -> tok_inv (do_repair_one w a b) [].
 Proof.
   apply on_pair_tok. intros c l. destruct (N.eqb a (l_a l)); unfold link_toks;
-    cbn [l_sent l_rdy_a l_rdy_b set_helds set_cuts]; lia.
+    cbn [l_sent l_rdy_a l_rdy_b set_helds set_cuts set_rands]; lia.
 Qed.
+
+Lemma coins_tok w a b cs : tok_inv w [] -> tok_inv (do_coins w a b cs) [].
+Proof. apply on_pair_tok. intros c l. unfold link_toks. cbn [l_sent l_rdy_a l_rdy_b set_coins]. lia. Qed.
 
 Lemma tick_tok w : tok_inv w [] -> tok_inv (do_tick w) [].
 Proof.
   intros H. eapply tok_inv_mono; [exact H|reflexivity|]. intros c. unfold do_tick.
   pose proof (tokc_set_links_map c w (flow_link w) (fun l => flow_link_le c w l)). lia.
 Qed.
-
-Lemma fold_syn_gone_tok (l : list wmsg) : forall w c, tokc c (fold_left syn_gone l w) = tokc c w.
-Proof. induction l as [|m l IH]; intros w c; cbn; [reflexivity|]. rewrite IH. apply tokc_syn_gone. Qed.
 
 Lemma fold_syn_gone_srvs (l : list wmsg) : forall w, srvs (fold_left syn_gone l w) = srvs w.
 Proof.
@@ -353,9 +384,9 @@ Proof.
     match goal with |- _ + tokc c (set_links w (map ?g _)) <= _ => pose proof (tokc_set_links_map c w g) as G end.
     match type of G with (?A -> _) => assert (Hx : A) end.
     { intros l. destruct (on_link l a b); [|lia]. destruct ow.
-      - unfold link_toks. destruct (N.eqb a (l_a l)); cbn [l_sent l_rdy_a l_rdy_b set_sent set_cuts set_helds];
+      - unfold link_toks. destruct (N.eqb a (l_a l)); cbn [l_sent l_rdy_a l_rdy_b set_sent set_cuts set_helds set_rands];
           rewrite !cnt_app; pose proof (cnt_syns_filter c (fun m => negb (from_host w a m)) (l_sent l)); lia.
-      - unfold link_toks. cbn [l_sent l_rdy_a l_rdy_b set_sent set_cuts set_helds]. rewrite !cnt_app, syns_nil. change (cnt c []) with 0. lia. }
+      - unfold link_toks. cbn [l_sent l_rdy_a l_rdy_b set_sent set_cuts set_helds set_rands]. rewrite !cnt_app, syns_nil. change (cnt c []) with 0. lia. }
     specialize (G Hx). lia.
 Qed.
 
@@ -636,6 +667,7 @@ Proof.
     destruct (do_loop_step w h) as [w1 p]. cbn [fst snd] in *. destruct p; exact D.
   - exact Ht.
   - exact Ht.
+  - now apply coins_tok.
 Qed.
 
 Lemma flat_map_nil {A B} (f : A -> list B) l : (forall x, In x l -> f x = []) -> flat_map f l = [].
@@ -771,6 +803,7 @@ Proof.
     match goal with |- context [deliver_msgs ?w2 h ?q] =>
       pose proof (acc_deliver_msgs q w2 h) as D; destruct (deliver_msgs w2 h q) as [w3 p3] end.
     cbn [fst snd] in *. destruct p3; exact D.
+  - reflexivity.
   - reflexivity.
   - reflexivity.
 Qed.
